@@ -266,7 +266,9 @@ class LiteralUnpackerBuilder(AbstractUnpackerBuilder):
                     lit_type
                 )
                 with lines.indent(
-                    f"if value == {enum_type_name}.{literal_value.name}.value:"
+                    f"if value.__class__ is "
+                    f"{enum_type_name}.{literal_value.name}.value.__class__ "
+                    f"and value == {enum_type_name}.{literal_value.name}.value:"
                 ):
                     lines.append(
                         f"return {enum_type_name}.{literal_value.name}"
@@ -283,7 +285,10 @@ class LiteralUnpackerBuilder(AbstractUnpackerBuilder):
                 literal_value,
                 (int, str, bool, NoneType),  # type: ignore
             ):
-                with lines.indent(f"if value == {literal_value!r}:"):
+                with lines.indent(
+                    f"if value.__class__ is ({literal_value!r}).__class__ "
+                    f"and value == {literal_value!r}:"
+                ):
                     lines.append(f"return {literal_value!r}")
         lines.append("raise ValueError(value)")
 
